@@ -453,7 +453,8 @@ func checkAndExtractFieldType(paths []string, typ reflect.Type) (extracted refle
 			continue
 		}
 
-		for extracted.Kind() == reflect.Ptr {
+		// one pointer level, like takeOne / checkAndExtractToField at request time: a path through **T is rejected here
+		if extracted.Kind() == reflect.Ptr {
 			extracted = extracted.Elem()
 		}
 
